@@ -82,6 +82,15 @@ def decorations : List (Str × Str × Bool) :=
     (s "not ", s "", true), (s "NOT ", s "", true), (s "is not ", s "", true), (s "Is Not ", s " ", true),
     (s "", s " not", true), (s "", s " is not", true), (s "is ", s " not", true), (s " ", s " NOT ", true) ]
 
+/-- The decorations in lower case and without outer whitespace (case and outer whitespace are
+quantified separately in `C16_name_decorated`): `(before, after, negated)`. -/
+def coreDecorations : List (Str × Str × Bool) :=
+  let s (t : String) : Str := codesOf t
+  [ (s "", s "", false), (s "is ", s "", false), (s "", s " is", false),
+    (s "!", s "", true), (s "! ", s "", true), (s "!is ", s "", true), (s "! is ", s "", true),
+    (s "not ", s "", true), (s "", s " not", true),
+    (s "is not ", s "", true), (s "", s " is not", true), (s "is ", s " not", true) ]
+
 /-- The abbreviations of the manual: `x=y`, `y=x` (identity), and formulas with a single `x`
 and/or a single `y`, together with the key each stands for. -/
 def abbreviations : List (Str × Key) :=
